@@ -26,4 +26,12 @@ CHECKS = {
             "subs": [sub("TestC05_abbrev", 2500, 120000, 16)]},
     "C06": {"pkg": "cli", "assumptions": CLI_ASSUME + ["the reference model is used only to confirm that the planned occurrences are the ones the command line addresses"],
             "subs": [sub("TestC06_alias", 30000, 1600000, 16)]},
+    "C07": {"pkg": "cli", "assumptions": CLI_ASSUME + ["only the preconditions the statement gives are used: bundled leading letters are declared flags, head letters are declared options"],
+            "subs": [sub("TestC07_modes", 40000, 1600000, 16)],
+            "fuzz": [{"target": "FuzzC07_modes", "sub": "modes", "time": 90}]},
+    "C08": {"pkg": "cli", "assumptions": CLI_ASSUME + ["uniform unknown-mode over the tree apart from the built-in help command; levels with differing modes between where the token stands and the selected level are not judged"],
+            "subs": [sub("TestC08_unknown", 50000, 2400000, 16)],
+            "fuzz": [{"target": "FuzzC08_unknown", "sub": "unknown", "time": 90}]},
+    "C09": {"pkg": "cli", "assumptions": CLI_ASSUME + ["whether a candidate is a stop token is established on the real parser without require-order (model-free)"],
+            "subs": [sub("TestC09_order", 30000, 1200000, 16)]},
 }
